@@ -732,6 +732,7 @@ package tally
 //@   ensures @prefix_kept forall j int :: 0 <= j && j < old(len(calls)) ==> calls[j] == old(calls[j])
 //@   ensures @no_cached_reporter_no_calls s.cachedReporter == nil ==> quiet()
 //@   witness created *histogram = h#3
+//@   ensures @allocates_only_when_it_registers forall p int :: old(len(calls)) <= p && p < len(calls) && calls[p] == ev(CachedStatsReporter.AllocateHistogram, s.cachedReporter, fqn(s, sanN(s, name)), s.tags, (b == nil ? s.defaultBuckets : b)) ==> created != nil
 //@   ensures @new_histogram_uses_requested_bounds created != nil ==> created == dyn(result, *histogram) && sameSpec(created.specification, (b == nil ? s.defaultBuckets : b))
 
 // ---------------------------------------------------------------------------
@@ -753,6 +754,7 @@ package tally
 //@   property C07, C09, C05
 //@   inv @entries_are_scopes b.s != nil && (forall k string :: k in b.s ==> b.s[k] != nil && scopeWF(b.s[k]))
 //@   guar @only_closed_scopes_are_unregistered forall k string :: old(k in b.s) && !old(b.s[k]).closed ==> k in b.s && b.s[k] == old(b.s[k])
+//@   guar @only_scopes_reported_after_their_close_are_unregistered forall k string :: old(k in b.s) && !(k in b.s && b.s[k] == old(b.s[k])) ==> flushed[old(b.s[k])] || (old(b.s[k]).reporter == nil && old(b.s[k]).cachedReporter == nil)
 
 //@ func (*scopeRegistry).lockedLookup
 //@   property C05, C09
@@ -765,6 +767,7 @@ package tally
 //@   property C07
 //@   requires r != nil && subscopeBucket != nil
 //@   requires @only_closed_scopes_are_retired s != nil && s.closed
+//@   requires @only_reported_scopes_are_retired flushed[s] || (s.reporter == nil && s.cachedReporter == nil)
 //@   holds subscopeBucket.mu R
 //@   acquires subscopeBucket.mu
 //@   modifies subscopeBucket.s
